@@ -226,6 +226,39 @@ inline void build_generators() {
                         std::to_string(sp),
                     g, c);
           }
+  // Z. textured grids with zero-length edges: the two end points of some cell diagonals / cell edges have the SAME position but
+  // different texture coordinates (collapsed geometry, or coarse quantization): the position-based tex-coord predictors take
+  // their degenerate branches
+  for (int variant = 0; variant < 3; ++variant)
+    for (int mk : {2, 3})
+      for (int sp : {0, 3, 5}) {
+        GeomDef g;
+        g.is_mesh = true;
+        g.num_points = 25;
+        for (int y = 0; y < 4; ++y)
+          for (int x = 0; x < 4; ++x) {
+            const int a = y * 5 + x;
+            g.faces.push_back({a, a + 1, a + 6});
+            g.faces.push_back({a, a + 6, a + 5});
+          }
+        AttDef pos, tex;
+        pos.type = GeometryAttribute::POSITION; pos.dt = DT_FLOAT32; pos.nc = 3; pos.uid = 0;
+        tex.type = GeometryAttribute::TEX_COORD; tex.dt = DT_FLOAT32; tex.nc = 2; tex.uid = 1;
+        for (int i = 0; i < 25; ++i) {
+          int src = i;
+          // variant 0: three diagonals collapsed (vertex a+6 takes the position of a); 1: two horizontal edges; 2: one diagonal, one vertical edge
+          if (variant == 0 && (i == 6 || i == 13 || i == 23)) src = i - 6;
+          if (variant == 1 && (i == 7 || i == 17)) src = i - 1;
+          if (variant == 2 && i == 12) src = 6;
+          if (variant == 2 && i == 18) src = 13;
+          pos.entries.push_back(bytes_of(std::vector<float>{(float)(src % 5), (float)(src / 5), 0.25f * ((src * src) % 3)}));
+          tex.entries.push_back(bytes_of(std::vector<float>{(i % 5) / 4.f, (i / 5) / 4.f}));
+        }
+        g.atts = {pos, tex};
+        EncCfg c = gs::mesh_cfg(mk, sp);
+        c.qbits = {11, 10};
+        add_gen("Z:grid5x5:collapsed" + std::to_string(variant) + ":m" + std::to_string(mk) + ":s" + std::to_string(sp), g, c);
+      }
   // F. two non-position attributes with different seam patterns (Edgebreaker per-attribute connectivity)
   for (auto &t : topos) {
     if (t.first != "closed_fan3" && t.first != "fan4" && t.first != "tetrahedron" && t.first != "two_pillows") continue;
